@@ -237,7 +237,13 @@ class FileInfo:
 
         self.arch_len = len(arch_data)
 
-        if self.arch_len:
+        if self.arch_len and arch_index is None:
+            # Kept in the directory file itself, after the file tree. That section is held in
+            # memory (footer_data) and written by write_dirfile(), read() looks there too.
+            self.arch_index = None
+            self.offset = len(self.vpk.footer_data)
+            self.vpk.footer_data += arch_data
+        elif self.arch_len:
             self.arch_index = arch_index
             arch_file = get_arch_filename(prefix, arch_index)
             with open(os.path.join(self.vpk.folder, arch_file), 'ab') as file:
